@@ -32,12 +32,42 @@ var corpusDocs = []string{
 	`{ab{... on Beta{ton{__typename}} ... on Alpha{ton{__typename}}}}`,
 }
 
+// Named and Tagged share only the gated implementation; GI, GG, Gated need the feature
+var gatingDocs = []string{
+	`{named{... on Tagged{id}}}`,
+	`{tagged{... on Named{name}}}`,
+	`{node(id:"1"){... on Tagged{id} ... on Named{name}}}`,
+	`{tagged{...F}} fragment F on Named {name}`,
+	`{named{... on Gated{id}}}`,
+	`{alpha{... on GI{i}}}`,
+	`{named{... on GG{__typename}}}`,
+	`{tagged{... on Gamma{id}}}`,
+}
+
 func generate(h *hx.H) {
 	fixed := rng.New(12345)
 	w0 := buildWorld(fixed, false)
 	for _, src := range corpusDocs {
 		src := src
 		emit(h, func(*rng.R) docCase { return docCase{W: w0, Src: src, Intent: "any", Tag: "corpus"} })
+	}
+	// feature gating: the same documents with and without the feature
+	var wGate, wPlain *world
+	for seed := uint64(1); wGate == nil || wPlain == nil; seed++ {
+		w := buildWorld(rng.New(seed), false)
+		if _, ok := fieldsOf(w.S.QueryType())["tagged"]; !ok {
+			continue
+		}
+		if w.Features.Has("gate") && wGate == nil {
+			wGate = w
+		} else if !w.Features.Has("gate") && wPlain == nil {
+			wPlain = w
+		}
+	}
+	for _, src := range gatingDocs {
+		src := src
+		emit(h, func(*rng.R) docCase { return docCase{W: wGate, Src: src, Intent: "any", Tag: "corpus-gate"} })
+		emit(h, func(*rng.R) docCase { return docCase{W: wPlain, Src: src, Intent: "any", Tag: "corpus-plain"} })
 	}
 	sw := smallWorld()
 	k := 3
